@@ -586,13 +586,36 @@ func replay(cs json.RawMessage) (string, string) {
 	return strings.Join(sigs, "\x1f"), obsText
 }
 
+// raceCross: cross-validation only (never decides the property). The scenarios are run FREE (no
+// scheduler, hooks inactive) a number of times with several jobs in a binary built with the Go race
+// detector (tools/racecross.sh); the detector's reports are compared with the variables the
+// happens-before monitor reports, to see that the monitor does not overlook a racing variable.
+func raceCross(n int) {
+	for _, sc := range scenarios {
+		for _, jobs := range []int{2, 3, 8} {
+			for i := 0; i < n; i++ {
+				L, R := sc.lists()
+				o := gedcom.NewIndividualNodesCompareOptions()
+				o.Jobs = jobs
+				L.Compare(R, o)
+			}
+		}
+	}
+	fmt.Println("racecross done")
+}
+
 func main() {
+	if len(os.Args) == 3 && os.Args[1] == "--racecross" {
+		n, _ := strconv.Atoi(os.Args[2])
+		raceCross(n)
+		return
+	}
 	vlib.MaxCounter("max-scheduling-points")
 	vlib.MaxCounter("max-threads")
 	vlib.Main(&vlib.Check{
 		ID:    "C11",
 		Level: "model_checking",
-		Rule: "executions of the real, instrumented IndividualNodes.Compare under the vsched cooperative scheduler: for every scenario (14 tiny colliding input pairs) x configuration (Jobs, thresholds, channel capacity 1, sync.Map range order, base scheduler) every schedule with at most d deviations from the default scheduler (delay bounding; d per configuration) is run to completion and judged: termination, valid one-to-one matching, justified pairs, equality with the sequential result when tie-free, vector-clock data-race monitor. " +
+		Rule: "executions of the real, instrumented IndividualNodes.Compare under the vsched cooperative scheduler: for every scenario (16 tiny colliding input pairs, two of them with lists that are only a part of their documents) x configuration (Jobs, thresholds, channel capacity 1, sync.Map range order, base scheduler) every schedule with at most d deviations from the default scheduler (delay bounding; d per configuration) is run to completion and judged: termination, valid one-to-one matching, justified pairs, equality with the sequential result when tie-free, vector-clock data-race monitor. " +
 			"states = distinct global operation traces (hash of the sequence of scheduled operations); distinct_nontrivial counts the same.",
 		Assumptions: []string{
 			"scheduling points sit at the hooked synchronisation operations (go, channel send/receive/close/select, sync.Mutex/WaitGroup/Map, time.Sleep as a yield); for race-free code this covers every behaviour of the Go memory model within the deviation bound; data races are reported by the happens-before monitor instead of being explored",
